@@ -44,7 +44,7 @@ def gen_lineage(r):
     for i in range(1, n_levels):
         ig = r.choice([None, None, None, 'anon', 'named'])
         force = ('X',) if (matrix and (i == 1 or r.random() < 0.5)) else ()
-        s, g = spec.gen_child(r, prev.gen, hook_p=0.0, ignore=ig, force=force)
+        s, g = spec.gen_child(r, prev.gen, hook_p=0.0, ignore=ig, force=force, override_ignore_p=0.25)
         m = C.ModInfo(i, nm(i), prev.id, s, g, parent=prev)
         infos.append(m)
         prev = m
@@ -99,6 +99,7 @@ def gen_plan(seed, useed, index, verif_seed):
         m.texts = C.make_texts(tr, m, n=3, accept=_acceptor(m))
     mods = {m.id: module_entry(m) for m in infos + [alt]}
     texts = {m.id: m.texts for m in infos + [alt]}
+    byid = {m.id: m for m in infos + [alt]}
     ops = []
     live = []
 
@@ -106,15 +107,25 @@ def gen_plan(seed, useed, index, verif_seed):
         for _ in range(k):
             if not live:
                 return
+            if len(live) >= 2 and ops and ops[-1]['op'] == 'parse' and wr.random() < 0.25:
+                # the same text again, back to back, through a relative of the module just used
+                last = ops[-1]
+                other = wr.choice([x for x in live if x != last['mod']])
+                ops.append({'op': 'parse', 'mod': other, 'entry': 'parse', 'text': last['text'], 'full': last['full']})
+                continue
             mid = wr.choice(live)
             me = mods[mid]
             entry = 'parse'
-            if me['own'] and wr.random() < 0.3:
-                n, kind = wr.choice(me['own'])
-                entry = '%s:%s' % (kind, n)
             # a text of this module or of a relative (what the parent accepts, the child may not)
             src = mid if wr.random() < 0.7 else wr.choice(live)
             t = wr.choice(texts[src])
+            if me['own'] and wr.random() < 0.3:
+                n, kind = wr.choice(me['own'])
+                entry = '%s:%s' % (kind, n)
+                if wr.random() < 0.7:
+                    # a derivation from that very rule, with ignorable gaps of the chain
+                    mi = byid[mid]
+                    t = C.entry_text(wr, mi, mi.rules[n])
             ops.append({'op': 'parse', 'mod': mid, 'entry': entry, 'text': t, 'full': wr.random() < 0.8})
 
     baseline = fr.random() < 0.1
@@ -157,6 +168,7 @@ def gen_plan(seed, useed, index, verif_seed):
         v.texts = C.make_texts(tr2, v, n=2, accept=_acceptor(v))
         mods[v.id] = module_entry(v)
         texts[v.id] = v.texts
+        byid[v.id] = v
         ops.append({'op': 'define', 'mod': v.id, 'reuse': True, 'recreate': True})
         live.append(v.id)
         parses(wr.choice([0, 1, 2]))
@@ -168,6 +180,7 @@ def gen_plan(seed, useed, index, verif_seed):
             n.texts = C.make_texts(tr2, n, n=2, accept=_acceptor(n))
             mods[n.id] = module_entry(n)
             texts[n.id] = n.texts
+            byid[n.id] = n
             ops.append({'op': 'define', 'mod': n.id, 'reuse': True, 'recreate': True})
             live.append(n.id)
             parses(wr.choice([1, 2, 3]))
@@ -261,6 +274,8 @@ def shape_of(me):
                 break
     if me['name'] and '.' in me['name'] and len(levels) > 1:
         tags.append('dotted-parent-name')
+    if any(it.get('ignore_override') for lv in levels[1:] for it in lv['items']):
+        tags.append('ignore-rule-overridden')
     if len(levels) > 1:
         for lv in levels:
             for it in lv['items']:
